@@ -35,6 +35,7 @@ func init() {
 		"verifYield":       stubYield,
 		"verifMaxAlloc":    vMaxAlloc,
 		"verifParam":       vParam,
+		"verifFreeze":      vFreeze,
 		"verifDeepEqual":   vDeepEqual,
 		"verifPreemptBound": func(it *Interp, fr *frame, fn *ssa.Function, a []Value, site ssa.Instruction) Value {
 			it.sched.preemptBound = int(a[0].(*Term).k)
@@ -397,4 +398,71 @@ func (it *Interp) deepEq(fr *frame, a, b Value, t types.Type, depth int) *Term {
 		return it.deepEq(fr, ia.v, ib.v, ia.t, depth+1)
 	}
 	return tt.tru
+}
+
+// verifFreeze(root): every object reachable from root becomes read-only; a
+// later store into one of them is reported as a "barrier" violation (a write
+// to state that concurrent readers share).
+func vFreeze(it *Interp, fr *frame, fn *ssa.Function, args []Value, site ssa.Instruction) Value {
+	seen := map[*Object]bool{}
+	var walk func(v Value)
+	visit := func(o *Object) {
+		if o == nil || seen[o] {
+			return
+		}
+		seen[o] = true
+		o.nowrite = true
+		it.frozenObjs = append(it.frozenObjs, o)
+		walk(it.rootR(o))
+	}
+	walk = func(v Value) {
+		switch x := v.(type) {
+		case *StructV:
+			for _, f := range x.f {
+				walk(f)
+			}
+		case *ArrayV:
+			if x.dense != nil {
+				for _, e := range x.dense {
+					if _, isT := e.(*Term); isT {
+						break
+					}
+					walk(e)
+				}
+			} else {
+				for _, e := range x.sparse {
+					walk(e)
+				}
+			}
+		case *PtrV:
+			if !x.isNil() {
+				visit(x.obj)
+			}
+		case *SliceV:
+			if x.base != nil {
+				visit(x.base.obj)
+			}
+		case *IfaceV:
+			if x.t != nil {
+				walk(x.v)
+			}
+		case *FuncV:
+			for _, e := range x.env {
+				walk(e)
+			}
+		case *MapV:
+			visit(x.obj)
+		case *MapData:
+			for i := range x.keys {
+				walk(x.keys[i])
+				walk(x.vals[i])
+			}
+		case TupleV:
+			for _, e := range x {
+				walk(e)
+			}
+		}
+	}
+	walk(args[0])
+	return nil
 }
